@@ -48,9 +48,33 @@ impl<'a> VxLines<'a> {
             old(self)@.len() == 0 ==> r.is_none() && final(self)@ == old(self)@,
             old(self)@.len() > 0 ==> r.is_some() && r.unwrap()@ == old(self)@[0] && final(self)@ == old(self)@.skip(1),
     { self.it.next() }
+
+    /// Iterator::any (operational contract: consumes up to and including the first hit)
+    #[verifier::external_body]
+    pub fn any<F: Fn(&'a str) -> bool>(&mut self, f: F) -> (r: bool)
+        requires forall|s: &'a str| call_requires(f, (s,))
+        ensures
+            r ==> exists|i: int| 0 <= i < old(self)@.len() && final(self)@ == #[trigger] old(self)@.skip(i + 1)
+                && (forall|s: &'a str| s@ == old(self)@[i] ==> #[trigger] call_ensures(f, (s,), true)),
+            !r ==> final(self)@.len() == 0
+                && (forall|i: int, s: &'a str| #![trigger old(self)@[i], call_ensures(f, (s,), false)]
+                    0 <= i < old(self)@.len() && s@ == old(self)@[i] ==> call_ensures(f, (s,), false)),
+    { self.it.any(f) }
+
+    /// Iterator::count
+    #[verifier::external_body]
+    pub fn count(self) -> (r: usize)
+        ensures r == self@.len()
+    { self.it.count() }
 }
 
 #[verifier::external_body]
 pub fn vx_lines<'a>(s: &'a str) -> (r: VxLines<'a>)
     ensures r@ == lines_of(s@)
 { VxLines { it: s.lines() } }
+
+/// R-chain: `s.lines().collect::<Vec<_>>()`
+#[verifier::external_body]
+pub fn vx_lines_vec<'a>(s: &'a String) -> (r: Vec<&'a str>)
+    ensures r@.len() == lines_of(s@).len(), forall|i: int| 0 <= i < r@.len() ==> (#[trigger] r@[i])@ == lines_of(s@)[i]
+{ s.lines().collect() }
